@@ -91,8 +91,31 @@ static void scenVariantKind(int kind)
   }
   if(vf_live_heap_blocks() != 0) vf_failf("C09:release", "%ld heap block(s) still allocated after the last handle was dropped", vf_live_heap_blocks());
 }
+// the other ways a Variant handle lets go of a shared payload: clear(), typed assignment, assignment of another Variant, swap
+static uint varClear(void* p) { Variant* h = (Variant*)p; h->clear(); if(!h->isNull()) vf_failf("C09:content", "cleared Variant is not null"); delete h; return 0; }
+static uint varAssignInt(void* p) { Variant* h = (Variant*)p; *h = 7; if(h->toInt() != 7) vf_failf("C09:content", "Variant assigned 7 holds %d", h->toInt()); delete h; return 0; }
+static uint varAssignString(void* p) { Variant* h = (Variant*)p; *h = String("s", 1); const Variant& c = *h; expectStr(c.toString(), "s", "Variant assigned a String"); delete h; return 0; }
+static uint varAssignVariant(void* p) { Variant* h = (Variant*)p; Variant o(5); *h = o; if(h->toInt() != 5) vf_failf("C09:content", "Variant assigned Variant(5) holds %d", h->toInt()); delete h; return 0; }
+static uint varAssignList(void* p) { Variant* h = (Variant*)p; List<Variant> l; l.append(Variant(9)); *h = l; const Variant& c = *h; if(c.toList().size() != 1) vf_failf("C09:content", "Variant assigned a one-element list has %d elements", (int)c.toList().size()); delete h; return 0; }
+static uint varSwap(void* p) { Variant* h = (Variant*)p; Variant o(3); h->swap(o); const Variant& c = o; if(h->toInt() != 3 || c.toList().size() != 2) vf_failf("C09:content", "swap exchanged the wrong payloads"); delete h; return 0; }
+static void scenVariantRelease(int which)
+{
+  vf_heap_baseline();
+  {
+    Variant* base = new Variant();
+    base->toList().append(Variant(1)); base->toList().append(Variant(String("s", 1)));
+    for(int i = 0; i < 3; ++i) hv[i] = new Variant(*base);
+    delete base;
+    Thread a, b, c;
+    if(which == 0) { a.start(varClear, hv[0]); b.start(varAssignInt, hv[1]); c.start(varAssignString, hv[2]); }
+    else { a.start(varAssignVariant, hv[0]); b.start(varSwap, hv[1]); c.start(varAssignList, hv[2]); }
+    a.join(); b.join(); c.join();
+  }
+  if(vf_live_heap_blocks() != 0) vf_failf("C09:release", "%ld heap block(s) still allocated after the last handle was dropped", vf_live_heap_blocks());
+}
 static void scenVariant(int variant)
 {
+  if(variant >= 5) { scenVariantRelease(variant - 5); return; }
   if(variant >= 2) { scenVariantKind(variant - 1); return; }
   vf_heap_baseline();
   {
@@ -145,6 +168,9 @@ static uint xmlMutate(void* p)
   delete h; return 0;
 }
 static uint xmlRead(void* p) { Xml::Variant* h = (Xml::Variant*)p; const Xml::Variant& c = *h; expectStr(c.toElement().type, "e", "shared element"); delete h; return 0; }
+static uint xmlClear(void* p) { Xml::Variant* h = (Xml::Variant*)p; h->clear(); if(!h->isNull()) vf_failf("C09:content", "cleared Xml::Variant is not null"); delete h; return 0; }
+static uint xmlAssignText(void* p) { Xml::Variant* h = (Xml::Variant*)p; *h = String("txt", 3); const Xml::Variant& c = *h; expectStr(c.toString(), "txt", "Xml::Variant assigned a text"); delete h; return 0; }
+static uint xmlAssignVariant(void* p) { Xml::Variant* h = (Xml::Variant*)p; Xml::Variant o(String("o", 1)); *h = o; const Xml::Variant& c = *h; expectStr(c.toString(), "o", "Xml::Variant assigned another one"); delete h; return 0; }
 static void scenXml(int variant)
 {
   vf_heap_baseline();
@@ -155,14 +181,15 @@ static void scenXml(int variant)
     delete base;
     Thread a, b, c;
     if(variant == 0) { a.start(xmlCopyDrop, hx[0]); b.start(xmlMutate, hx[1]); c.start(xmlRead, hx[2]); }
-    else { a.start(xmlMutate, hx[0]); b.start(xmlMutate, hx[1]); c.start(xmlCopyDrop, hx[2]); }
+    else if(variant == 1) { a.start(xmlMutate, hx[0]); b.start(xmlMutate, hx[1]); c.start(xmlCopyDrop, hx[2]); }
+    else { a.start(xmlClear, hx[0]); b.start(xmlAssignText, hx[1]); c.start(xmlAssignVariant, hx[2]); }
     a.join(); b.join(); c.join();
   }
   if(vf_live_heap_blocks() != 0) vf_failf("C09:release", "%ld heap block(s) still allocated after the last handle was dropped", vf_live_heap_blocks());
 }
 
 struct Scen { const char* name; void (*fn)(int); int variants; };
-static const Scen SCEN[] = {{"string", scenString, 6}, {"variant", scenVariant, 5}, {"ptr", scenPtr, 2}, {"xml", scenXml, 2}};
+static const Scen SCEN[] = {{"string", scenString, 6}, {"variant", scenVariant, 7}, {"ptr", scenPtr, 2}, {"xml", scenXml, 3}};
 extern "C" int vf_scenario_count(void) { return (int)(sizeof(SCEN) / sizeof(*SCEN)); }
 extern "C" const char* vf_scenario_name(int id) { return SCEN[id].name; }
 extern "C" int vf_scenario_variants(int id) { return SCEN[id].variants; }
